@@ -3,6 +3,7 @@
 // from -2 to N+3 (N = required length), charsWritten NULL or not, both character
 // types. The destination is a guard-page buffer of exactly max(c,0) characters, so
 // a single character written beyond the stated capacity faults.
+#include <climits>
 #include "gen.hpp"
 #include "parse_common.hpp"
 
@@ -84,6 +85,7 @@ template <class A> static Verdict check_type(const Fields &f, bool *nontrivial, 
   std::vector<int> caps;
   if (N <= 256) for (int c = -2; c <= N + 3; c++) caps.push_back(c);
   else { for (int c = -2; c <= 8; c++) caps.push_back(c); for (int c = N - 8; c <= N + 3; c++) caps.push_back(c); for (int c = 9; c < N - 8; c += 7) caps.push_back(c); }
+  for (int c : {INT_MIN, INT_MIN + 1, -INT_MAX / 2}) caps.push_back(c);  // "no room" in its most extreme spellings
   for (int c : caps) {
     size_t cap = c > 0 ? (size_t)c : 0;
     Ch *dest = gb().right_chars<Ch>(cap);
